@@ -21,7 +21,10 @@ RULE = ("cases drawn from one PRNG (VERIF_SEED). COMPARED line by line with the 
         "(Accept html or not, Referer absolute URL / relative / absent / non-UTF-8); op9 run_on_client through the loopback "
         "vs the body called directly. ORACLE-ONLY (serde codecs are assumed, exercised differentially, never modelled): op10 "
         "remote vs direct for 30 #[server] functions = every input encoding x Json, Json x every output encoding, mixed "
-        "pairs, over nested structs/options/vectors/strings/numbers at range limits and Err results of every variant; "
+        "pairs, over nested structs/options/vectors/strings/numbers at range limits and Err results of every variant; op18 "
+        "#[server] functions with Option arguments in first/middle/last position (None, Some(\"\"), Some(vec![]) often) for each of "
+        "the 19 input encodings; every request and response body is delivered as a Bytes::slice view behind a 0..9-byte frame "
+        "header inside a larger buffer (case-chosen), as framed transports do; "
         "op11 the same calls under truncate/flip/splice/replace of request or response bytes and status overrides "
         "(must be a value, never a panic); op12 multipart requests with good/missing/malformed boundary and damaged bodies; "
         "op13-15,17 text/byte streams in and out. A case is non-trivial when its payload is non-empty; distinct = distinct case hash.")
@@ -391,16 +394,42 @@ MP_CTS = [b"multipart/form-data; boundary=B", b"multipart/form-data", b"multipar
           b"multipart/form-data; charset=utf-8; boundary=B", b";", b"boundary=B"]
 
 
+OPT_FNS = ["json", "cbor", "msgpack", "postcard", "rkyv", "serdelite", "geturl", "posturl", "deleteurl", "patchurl", "puturl",
+           "patchjson", "putjson", "patchcbor", "putcbor", "patchmsgpack", "putmsgpack", "patchpostcard", "putpostcard"]
+OPT_URL = {i for i, p in enumerate(OPT_FNS) if p.endswith("url")}
+
+
+def gen_frame(rng):
+    """header lengths (0..=9) of the transport frames carrying the request / response body"""
+    return [rng.randint(0, 9), rng.randint(0, 9)]
+
+
+def gen_opt_args(rng):
+    """arguments of the Option-argument functions: None / empty / boundary values in every position, often"""
+    def opt(f, p_none=0.45):
+        return [] if rng.random() < p_none else [f()]
+    first = opt(lambda: rng.choice([0, 1, 2 ** 32 - 1, rng.getrandbits(32)]))
+    a = C.norm(gen_str(rng, 6))
+    mid = opt(lambda: C.norm(rng.choice(["", "", gen_str(rng, 6)])))
+    lst = opt(lambda: [gen_inner(rng) for _ in range(rng.choice([0, 0, 1, 2, 3]))])
+    n = u64(rng.choice([0, -1, 2 ** 63 - 1, -2 ** 63, rng.randint(-2 ** 63, 2 ** 63 - 1)]) % 2 ** 64)
+    last = opt(lambda: gen_inner(rng))
+    return [first, a, mid, lst, n, last]
+
+
 def gen_typed(rng):
     r = rng.random()
-    if r < 0.45:
-        return dict(case=[10, rng.randrange(len(PAIRS)), gen_val(rng), gen_plan(rng)], kind="typed-remote-vs-direct",
+    if r < 0.30:
+        return dict(case=[10, rng.randrange(len(PAIRS)), gen_val(rng), gen_plan(rng), gen_frame(rng)],
+                    kind="typed-remote-vs-direct", compare=False)
+    if r < 0.50:
+        return dict(case=[18, rng.randrange(len(OPT_FNS))] + gen_opt_args(rng) + [gen_frame(rng)], kind="option-args",
                     compare=False)
     if r < 0.80:
         where = rng.choice([0, 0, 1, 1, 2])
         arg = gen_edit(rng) if where < 2 else rng.choice(STATUSES + [rng.randint(100, 999)])
-        return dict(case=[11, rng.randrange(len(PAIRS)), gen_val(rng), gen_plan(rng), where, arg], kind="typed-corrupted",
-                    compare=False)
+        return dict(case=[11, rng.randrange(len(PAIRS)), gen_val(rng), gen_plan(rng), where, arg, gen_frame(rng)],
+                    kind="typed-corrupted", compare=False)
     if r < 0.86:
         ct = rng.choice(MP_CTS)
         if rng.random() < 0.2:
@@ -697,6 +726,12 @@ def oracle_typed(case, impl):
         if direct != [[0, ch] for ch in case[1]]:
             return "harness: direct byte stream differs from the reference"
         return None if remote == direct else "remote byte stream differs from the direct one"
+    if op == 18:
+        remote, direct = impl
+        if direct != [0, case[2:8]]:
+            return "harness: direct call differs from the reference (echo of the arguments)"
+        return None if remote == direct else "remote call result differs from the direct call (o_%s, frames %r)" % (
+            OPT_FNS[case[1] % len(OPT_FNS)], case[8] if len(case) > 8 else None)
     if op == 17:
         remote, direct = impl
         want = [0, [b for ch in case[1] for b in ch]]
@@ -726,6 +761,22 @@ def classify(item, impl, model):
     """F-C13-e: serde_qs (the URL-encoded *input* codecs) cannot represent an empty vector (the field is
     omitted, decoding reports `missing field`) nor an empty optional string (comes back as None)."""
     case = item["case"]
+    if case[0] == 18 and not isinstance(impl, str) and (case[1] % len(OPT_FNS)) in OPT_URL:
+        remote, direct = impl
+        if remote[0] != 0 or direct[0] != 0:
+            return None
+        ok = True
+        for i, (r, d) in enumerate(zip(remote[1], direct[1])):
+            if r == d:
+                continue
+            if i == 2 and d == [[]] and r == []:                      # mid: Some("") -> None
+                continue
+            if i == 3 and d == [[]] and r == []:                      # list: Some(vec![]) -> None
+                continue
+            if i in (3, 5) and d and r and all(x == [] and y == [[]] and p[-1] == 2 for (p, x, y) in _diffs(r, d)):
+                continue                                              # an inner opt: Some("") -> None
+            ok = False
+        return "F-C13-e" if ok else None
     if case[0] != 10 or isinstance(impl, str) or (case[1] % len(PAIRS)) not in URL_INPUT:
         return None
     remote, direct = impl
@@ -852,6 +903,10 @@ def _valid_u64(v):
     return isinstance(v, list) and len(v) == 2 and all(isinstance(x, int) and 0 <= x < 2 ** 32 for x in v)
 
 
+def _valid_frame(f):
+    return isinstance(f, list) and len(f) == 2 and all(isinstance(x, int) and 0 <= x <= 9 for x in f)
+
+
 def _valid_val(v):
     if not (isinstance(v, list) and len(v) == 10):
         return False
@@ -924,7 +979,9 @@ def valid_case(item):
                     c[3][0] in range(11) and _is_text(c[3][1])):
                 return False
             if op == 10:
-                return len(c) == 4
+                return len(c) == 4 or (len(c) == 5 and _valid_frame(c[4]))
+            if len(c) not in (6, 7) or (len(c) == 7 and not _valid_frame(c[6])):
+                return False
             where, arg = c[4], c[5]
             if where == 2:
                 return isinstance(arg, int) and 100 <= arg <= 999
@@ -938,6 +995,14 @@ def valid_case(item):
             if k == 2:
                 return len(arg) == 4 and arg[1] >= 0 and arg[2] >= 0 and _is_bytes(arg[3])
             return k == 3 and len(arg) == 2 and _is_bytes(arg[1])
+        if op == 18:
+            if len(c) not in (8, 9) or (len(c) == 9 and not _valid_frame(c[8])):
+                return False
+            return (isinstance(c[1], int) and 0 <= c[1] < len(OPT_FNS)
+                    and _is_opt(c[2], lambda x: isinstance(x, int) and 0 <= x < 2 ** 32) and _is_text(c[3])
+                    and _is_opt(c[4], _is_text)
+                    and _is_opt(c[5], lambda l: isinstance(l, list) and all(_valid_inner(i) for i in l))
+                    and _valid_u64(c[6]) and _is_opt(c[7], _valid_inner))
         if op == 12:
             return len(c) == 3 and _is_opt(c[1], _is_header) and _is_bytes(c[2])
         if op in (13, 15):
@@ -997,8 +1062,12 @@ def describe(it):
     if case[0] in (10, 11):
         d = "%s(v=%r, plan=%r)" % ("f_" + PAIRS[case[1] % len(PAIRS)], case[2], (case[3][0], C.show_bytes(case[3][1])))
         if case[0] == 10:
-            return d + ": run_on_client() through the loopback vs the function called directly"
-        return d + " with transport fault where=%r %r" % (["request", "response", "status"][case[4]], case[5])
+            return d + " frames=%r: run_on_client() through the loopback vs the function called directly" % (case[4:5],)
+        return d + " frames=%r with transport fault where=%r %r" % (case[6:7], ["request", "response", "status"][case[4]], case[5])
+    if case[0] == 18:
+        return "o_%s(first=%r, a=%r, mid=%r, list=%r, n=%r, last=%r) frames=%r: run_on_client() vs direct" % (
+            OPT_FNS[case[1] % len(OPT_FNS)], case[2], C.show_bytes(case[3]), [C.show_bytes(x) for x in case[4]], case[5], case[6],
+            case[7], case[8] if len(case) > 8 else None)
     if case[0] == 12:
         return "POST upload Content-Type=%r body=%r" % ([C.bs(x) for x in case[1]], C.bs(case[2]))
     if case[0] in (13, 14, 15, 17):
